@@ -28,7 +28,10 @@ Rules(e) ==
                 /\ ToBlocks(e.new) = ed /\ e.content_same
                 /\ e.len_new = MU!Size(ed) + (e.len_old - MU!Size(old))
                 /\ e.orig_untouched>>,
-          <<"C10.audio-untouched", e.ret \in {"inplace", "rebuilt"} => (e.audio_same /\ e.pcm_same)>> >>
+          <<"C10.audio-untouched", e.ret \in {"inplace", "rebuilt"} => (e.audio_same /\ e.pcm_same)>>,
+          \* the path-taking front end update(path) is update_file over the same bytes: same verdict, same resulting file,
+          \* and the file as it was when the edit is refused
+          <<"C10.path-front-end-agrees", "path" \in DOMAIN e => (e.path.ret = e.ret /\ e.path.same)>> >>
 
 Init == l = 1 /\ blocks = <<>> /\ outcome = [res |-> "init"] /\ nedits = 0
 Next ==
